@@ -441,22 +441,32 @@ pub fn watched<T>(desc: impl FnOnce() -> String, f: impl FnOnce() -> T) -> T {
 
 fn start_watchdog(prop: String, replay_dir: PathBuf) {
 	let _ = now_ms();
-	std::thread::Builder::new().name("watchdog".into()).spawn(move || loop {
+	std::thread::Builder::new().name("watchdog".into()).spawn(move || {
+		// per slot: (start of the case it was seen in, CPU time seen last, wall time at which the CPU time last advanced)
+		let mut seen: Vec<(u64, u64, u64)> = vec![(0, 0, 0); slots().len()];
+		loop {
 		std::thread::sleep(std::time::Duration::from_millis(250));
 		let budget = WATCHDOG_BUDGET_MS.load(Ordering::Relaxed);
 		let now = now_ms();
-		for slot in slots().iter() {
+		for (i, slot) in slots().iter().enumerate() {
 			let s = slot.start_ms.load(Ordering::SeqCst);
 			if s == 0 || now.saturating_sub(s) <= budget {
 				continue;
 			}
 			// The budget is CPU time of the worker thread, so that a machine busy with other work cannot turn a
-			// healthy case into a timeout; ten budgets of wall time without progress is a hang of any kind.
+			// healthy case into a timeout; ten budgets of wall time during which the thread used no CPU at all is a
+			// hang of the blocked kind (a case that is merely starved by other work keeps advancing, however slowly).
 			let cpu = cpu_ms_of(slot.cpu_clock.load(Ordering::SeqCst) as libc::clockid_t).saturating_sub(slot.start_cpu_ms.load(Ordering::SeqCst));
 			if slot.start_ms.load(Ordering::SeqCst) != s {
 				continue; // the case finished meanwhile
 			}
-			if (cpu > budget || now.saturating_sub(s) > 10 * budget) && !WATCHDOG_FIRED.swap(true, Ordering::SeqCst) {
+			if seen[i].0 != s {
+				seen[i] = (s, cpu, s);
+			} else if cpu != seen[i].1 {
+				seen[i].1 = cpu;
+				seen[i].2 = now;
+			}
+			if (cpu > budget || now.saturating_sub(seen[i].2) > 10 * budget) && !WATCHDOG_FIRED.swap(true, Ordering::SeqCst) {
 				let desc = slot.desc.lock().map(|d| d.clone()).unwrap_or_default();
 				let _ = std::fs::create_dir_all(&replay_dir);
 				let path = replay_dir.join("timeout.txt");
@@ -464,6 +474,7 @@ fn start_watchdog(prop: String, replay_dir: PathBuf) {
 				println!("VIOLATION property={} replay={} key=timeout case exceeded {} ms", prop, path.display(), budget);
 				std::process::exit(1);
 			}
+		}
 		}
 	}).unwrap_or_else(|e| machinery_fail(&format!("cannot start watchdog: {e}")));
 }
